@@ -72,6 +72,52 @@ static void scenario(const std::string &scen, int run, Circuit base, const Coloq
   if (scen == "leg") {
     Circuit a = base;
     if (call(cx, a, "A", "legalize", p)) call(cx, a, "A", "legalize", p);
+  } else if (scen == "legc") {
+    // C11: a directly constructed legal single-row placement (dense, exactly full segments included), legalized once
+    Circuit a = base;
+    vg::Rng r((uint64_t)run * 991 + 3);
+    std::vector<Row> segs = a.computeRows();
+    std::vector<int> cursor;
+    for (const Row &sg : segs) cursor.push_back(sg.minX);
+    int H = a.rowHeight();
+    std::vector<int> order;
+    for (int i = 0; i < a.nbCells(); ++i)
+      if (!a.isFixed(i)) order.push_back(i);
+    std::shuffle(order.begin(), order.end(), r.g);
+    double pGap = r.real(0, 1) < 0.5 ? 0.0 : r.real(0, 0.6);
+    for (int c : order) {
+      bool placed = false;
+      std::vector<int> cand;
+      for (size_t k = 0; k < segs.size(); ++k) cand.push_back((int)k);
+      std::shuffle(cand.begin(), cand.end(), r.g);
+      for (int k : cand) {
+        CellOrientation o = cellOrientationInRow(a.cellRowPolarity_[c], segs[k].orientation);
+        if (o == CellOrientation::INVALID) continue;
+        int remaining = segs[k].maxX - cursor[k];
+        int w = a.cellWidth_[c];
+        if (remaining <= 0) continue;
+        if (w > remaining || r.chance(0.15)) w = remaining;  // exactly fill what is left of the segment
+        int gap = r.chance(pGap) ? (int)r.in(0, std::max(0, remaining - w)) : 0;
+        a.cellWidth_[c] = w;
+        a.cellHeight_[c] = H;
+        if (o != CellOrientation::UNKNOWN) a.cellOrientation_[c] = o;
+        else if (isTurn(a.cellOrientation_[c])) a.cellOrientation_[c] = CellOrientation::N;
+        a.cellX_[c] = cursor[k] + gap;
+        a.cellY_[c] = segs[k].minY;
+        cursor[k] += gap + w;
+        placed = true;
+        break;
+      }
+      if (!placed) {
+        // no room: take the cell out of the problem (fixed, not an obstruction)
+        a.cellIsFixed_[c] = true;
+        a.cellIsObstruction_[c] = false;
+      }
+    }
+    Value rs = vt::ev("Rebase");
+    rs.set("run", run).set("circ", vp::circuitToJson(a)).set("wl", a.hpwl());
+    vt::emit(rs);
+    if (call(cx, a, "A", "legalize", p)) call(cx, a, "A", "legalize", p);
   } else if (scen == "det") {
     // reference: legalization alone on a copy, then detailed placement on another copy
     Circuit a = base;
